@@ -1,6 +1,7 @@
 package main
 
-// End to end over the library's own buffered transport (transport/buffered.go): one writer, a queued or
+// End to end over the library's own buffered transport (transport/buffered.go): one writer (plus, on synchronous channels, a
+// second goroutine that writes truly empty payloads while the first may be inside Flush), a queued or
 // synchronous channel, the recording mock as the underlying net.Conn.  The bytes that arrive at the
 // connection must be the concatenation of the successfully written payloads in call order (C01), and
 // at rest all of them must have arrived (C02: nothing parked in the transport's write buffer).
@@ -24,6 +25,7 @@ type bufCfg struct {
 	Kinds []int `json:"kinds"`
 	Sizes []int `json:"sizes"`
 	Segs  []int `json:"segs"`
+	Empty int   `json:"empty,omitempty"` // synchronous channel: a second goroutine makes this many truly empty writes meanwhile
 	Picks []int `json:"picks,omitempty"`
 }
 
@@ -38,6 +40,9 @@ func runBuffered(c bufCfg, choose func(step int, en []*sched.Thread, last *sched
 	var ch netty.Channel
 	if c.QCap == 0 {
 		ch = netty.NewChannel()(1, context.Background(), pl, tr, ex)
+		if c.Empty > 0 {
+			conn.Yield = func(p string) { s.Yield(p, nil) } // the connection is a scheduling point: a writer can be inside Flush
+		}
 	} else {
 		ch = netty.NewAsyncWriteChannel(c.QCap, c.Until)(1, context.Background(), pl, tr, ex)
 	}
@@ -64,6 +69,17 @@ func runBuffered(c bufCfg, choose func(step int, en []*sched.Thread, last *sched
 			}
 		}
 	})
+	if c.QCap == 0 && c.Empty > 0 {
+		s.Spawn("w1", func() {
+			for k := 0; k < c.Empty; k++ {
+				if k%2 == 0 {
+					ch.Write1(nil)
+				} else {
+					ch.Writer().Write([]byte{})
+				}
+			}
+		})
+	}
 	var last *sched.Thread
 	step := 0
 	s.MaxSteps = 20000
@@ -94,6 +110,10 @@ func exploreBuffered(rng *hx.Rng, meta *hx.Meta, prop string, n int) {
 			c.Kinds = append(c.Kinds, rng.Intn(5))
 			c.Sizes = append(c.Sizes, []int{0, 1, 7, 15, 16, 17, 100, c.WBuf - 1, c.WBuf, c.WBuf + 1, 2*c.WBuf + 3}[rng.Intn(11)])
 			c.Segs = append(c.Segs, 1+rng.Intn(3))
+		}
+		if c.QCap == 0 && rng.Chance(50) {
+			c.Empty = 1 + rng.Intn(3)
+			meta.Count("buffered transport", "synchronous, a second goroutine writes empty payloads")
 		}
 		var strat func(int, []*sched.Thread, *sched.Thread) int
 		if i%2 == 0 {
